@@ -125,7 +125,10 @@ def handleAc (toks : List String) : String :=
     match parseList pats, parseList ins with
     | some pats, some ins =>
       if !(pats.all fun p => p.all acValid) then "err"
-      else "r=" ++ String.ofList (ins.map fun i => if acContains pats i then '1' else '0')
+      else "r=" ++ "".intercalate (ins.map fun i =>
+        -- the automaton (what the matcher model executes) and the substring contract must agree
+        let a := acAuto pats i
+        if a == acContains pats i then boolStr a else boolStr a ++ "!spec")
     | _, _ => "bad-op"
   | _ => "bad-op"
 
@@ -133,9 +136,9 @@ def validSetHex (f : Nat → Bool) : String := bytesToHex ((List.range 256).filt
 
 def handleAlpha (toks : List String) : String :=
   match toks with
-  | ["d"] => "valid=" ++ validSetHex domainChars.isValid ++ " | order=" ++ bytesToHex domainChars.alphabet
-  | ["c"] => "valid=" ++ validSetHex cidrChars.isValid ++ " | order=" ++ bytesToHex cidrChars.alphabet
-  | ["ac"] => "valid=" ++ validSetHex acValid ++ " | order=" ++ bytesToHex acChars
+  | ["d"] => s!"valid={validSetHex domainChars.isValid} | n={domainChars.size} order={bytesToHex domainChars.alphabet}"
+  | ["c"] => s!"valid={validSetHex cidrChars.isValid} | n={cidrChars.size} order={bytesToHex cidrChars.alphabet}"
+  | ["ac"] => s!"valid={validSetHex acValid} | n={acChars.length} order={bytesToHex acChars}"
   | _ => "bad-op"
 
 /-! ### matcher session -/
